@@ -461,4 +461,20 @@ def check_C19(run):
                         "Cursor::advance_by's two cfg!(debug_assertions) branches are modelled by one function (they differ only in prev_char bookkeeping)"]
 
 
-CHECKS = {"C05": check_C05, "C03": check_C03, "C02": check_C02, "C19": check_C19}
+def check_C04(run):
+    lexer_check(run, "C04", O.c04, 3000, 80000,
+                premise=({"lines_ok": "true", "debt": "false", "consumed": "true"},
+                         "premise of C04_line_table fails in the model run (line protocol monitor / pending line feed / input not consumed)"),
+                extra_inputs=lambda rng, run: [x for t in ("%macro m; * a\nb; %mend;", "%m(a\n=1)", "'a\nb'n", "%let a=%str(x\ny);", "data;\ndatalines;\n1\n;", "%put \"a\n&b\";")
+                                               for x in gen.lf_everywhere(t)])
+    run.assumptions += ["C04_line_table / C04_line_count are conditional on the line-protocol monitor of the model run (checked on every input); token and error line/column and end positions are tested by the oracle, not proved",
+                        "end position of a token ending in a line feed follows the reading of DESIGN.md §7 C04 (pinned by the crate's tests/util.rs)"]
+
+
+def check_C09(run):
+    lexer_check(run, "C09", O.c09, 3000, 80000,
+                premise=({"err_ok": "true"}, "an error survived a rollback or a prepared error was emitted out of order in the model run (monitor g_err_ok)"))
+    run.assumptions += ["C09_error_offsets is proved for every program; anchoring of last_token in the final stream and the missing-symbol/virtual-token pairing are tested by the oracle and monitored (g_err_ok), not proved"]
+
+
+CHECKS = {"C04": check_C04, "C09": check_C09, "C05": check_C05, "C03": check_C03, "C02": check_C02, "C19": check_C19}
